@@ -762,8 +762,9 @@ def heap_cases(chk, quick):
         p = r.split(" ")
         return " ".join(["ok" if p[0] == "ok" else "fail"] + p[1:7] + p[9:])
     model = run_model([mline(q) for q in reqs])
+    nl_model = run_model([f"ord nlargest {q['d']} {1 if q['dec'] else 0} {q['n']} {show(q['xs'])}" for q in reqs])
     freqs, fmeta = [], []
-    for (xs, d, dec, m), req, ri, rm in zip(base, reqs, impl, model):
+    for (xs, d, dec, m), req, ri, rm, rnl in zip(base, reqs, impl, model, nl_model):
         chk.evaluations += 1
         chk.count("unit:heap:ok")
         got = "PANIC " + ri["panic"] if "panic" in ri else ri.get("r", json.dumps(ri))
@@ -781,6 +782,9 @@ def heap_cases(chk, quick):
         if rm != norm(got):
             chk.violation("tie:unit:heap", f"heap model disagrees with the implementation (which is right): model={rm[:160]} impl={got[:160]}",
                           {"harness": req, "model": mline(req)}, no_input=True)
+        if rnl != f"ok {parts[2]} {parts[10]}":
+            chk.violation("tie:unit:nlargest", f"Heap.nLargest (the function heap_nlargest_spec is about) disagrees with the implementation: model={rnl[:160]} impl popped={parts[2][:120]} n={parts[10]}",
+                          {"harness": req}, no_input=True)
         ncmp = int(parts[10])
         ks = range(ncmp) if ncmp <= 300 else sorted(rng.sample(range(ncmp), 60))
         for k in ks:
